@@ -102,9 +102,10 @@ Ents(sc, d) == {e \in TreeSet(sc) : Len(e.p) = Len(d) + 1 /\ Par(e.p) = d}
 (*              be judged in either spelling; a glob URL is judged by its  *)
 (*              directory and only against the reject expression           *)
 (*   Glob       (attribution only) the path is not matched by the pattern  *)
+(*   Tries      --tries 1 (all scenarios): a file is retrieved at most once *)
 (* --follow-ftp does not matter: the parent of every URL is an ftp URL.    *)
 (***************************************************************************)
-RuleNames == <<"Recursive", "Level", "Parent", "Directory", "Filename", "Regex", "Glob", "Unreachable">>
+RuleNames == <<"Recursive", "Level", "Parent", "Directory", "Filename", "Regex", "Glob", "Unreachable", "Tries">>
 
 IsGlobStart(sc, s) == sc.opt.glob /\ ~s.slash /\ s.p # <<>> /\ HasGlob(Last(s.p))
 StartNode(sc, s) ==
@@ -180,8 +181,11 @@ FirstFail(sc, n) == LET F == {i \in 1..6 : ~RuleOK(sc, n, RuleNames[i])} IN IF F
 RECURSIVE Why(_, _, _, _)
 Why(sc, R0, q, fuel) ==
   LET C == Cands(sc, R0, q) IN
-  IF C = {} THEN (IF \E s \in Range(sc.starts) : ~s.slash /\ s.p # <<>> /\ HasGlob(Last(s.p)) /\ IsPrefix(Par(s.p), q)
-                 THEN 7 ELSE 8)
+  IF C = {}
+  THEN LET PS == {m \in Starts(sc) : m.ns /\ Par(m.p) = q /\ ~Pass(sc, m)} IN     \* parent of a start URL that fails
+       IF PS # {} THEN MinOf({FirstFail(sc, m) : m \in PS})
+       ELSE IF \E s \in Range(sc.starts) : ~s.slash /\ s.p # <<>> /\ HasGlob(Last(s.p)) /\ IsPrefix(Par(s.p), q)
+       THEN 7 ELSE 8
   ELSE LET lo == MinOf({n.lvl : n \in C})
            ff == {FirstFail(sc, n) : n \in {m \in C : m.lvl = lo}}
        IN IF 0 \notin ff THEN MinOf(ff)
